@@ -307,7 +307,7 @@ def native_hang_check(pid, h, watchdog=40):
     vfile = os.path.join(base, "zeros.vals")
     open(vfile, "w").write("# zero-filled\n")
     env = dict(os.environ)
-    env.update({"CARGO_NET_OFFLINE": "true", "VERIF_REPLAY_FILE": vfile, "CARGO_TARGET_DIR": tdir, "VERIF_SHIM_CFG_DIR": sdir})
+    env.update({"CARGO_NET_OFFLINE": "true", "VERIF_REPLAY_FILE": vfile, "CARGO_TARGET_DIR": tdir, "VERIF_SHIM_CFG_DIR": sdir, "VERIF_REPLAY_FILL": "1"})
     # build first (not under the watchdog)
     subprocess.run(["cargo", "test", "--offline", "--lib", "--features", "verif_replay", "--no-run"], cwd=sdir, env=env,
                    stdout=subprocess.PIPE, stderr=subprocess.STDOUT, timeout=1200)
